@@ -216,6 +216,7 @@ class Renderer:
                     self.templates.pop(n['name'], None)
                     self.ns[n['name']] = self.ev(n['expr'])
             elif t == 'def':
+                self.executed_stmts.add(json.dumps({k: v for k, v in n.items() if k != 'id'}, sort_keys=True))
                 exec(n['src'], self.ns)
             elif t == 'call':
                 self.conv_pass = True
